@@ -116,6 +116,8 @@ def execute(ctx, it, params):
         fired += ['spurious-wakeup'] * st['spurious_fired']
     if st.get('starve_skips'):
         fired.append('starvation')
+    if st.get('first_use_delays'):
+        fired += ['first-use-delay'] * st['first_use_delays']
     if st.get('signal_choices'):
         fired += ['signal-recipient-choice'] * st['signal_choices']
     return F.Result(verdict, key, fired, [(it['name'], st.get('sched_hash'))], digest=(o.exit, C.sha(o.stdout or b''), st.get('log_hash')),
